@@ -737,6 +737,10 @@ func (rs *s3ClientStorage) CopyObject(ctx context.Context, srcBucket storage.Buc
 		if opts.Metadata != nil {
 			input.WebsiteRedirectLocation = opts.Metadata.WebsiteRedirectLocation
 		}
+		if opts.ReplaceTags {
+			input.TaggingDirective = types.TaggingDirectiveReplace
+			input.Tagging = taggingHeaderValue(opts.Tags)
+		}
 		if opts.StorageClass != nil {
 			input.StorageClass = types.StorageClass(*opts.StorageClass)
 		}
